@@ -235,6 +235,7 @@ fn requests(max_len: usize, table: &RefTable) -> Vec<String> {
 }
 
 fn run_program(prog: &[Op], max_len: usize, out: &mut UnitResult, unit: &Value) {
+    crate::pool::crumb(|| format!("routing program {:?}", prog.iter().map(op_json).collect::<Vec<_>>()));
     let calls: Calls = Arc::new(Mutex::new(BTreeMap::new()));
     let mut b = Builder { next_svc: 0, next_tag: 100, calls: calls.clone() };
     let built = std::panic::catch_unwind(std::panic::AssertUnwindSafe(|| b.build(prog)));
